@@ -5,9 +5,17 @@ PARALLEL_UNITS = 6
 # name -> extraction unit (+ feature set / rlimit)
 VERUS_UNITS = {
     'i64-ast': dict(unit='i64-ast', rlimit=30),
+    'i64-parser': dict(unit='i64-parser', rlimit=30),
 }
 
 KANI_GROUPS = {}
+
+PARSER_ASSUME = [
+    'A-tokenizer-shape: the token sequence handed to the parser ends with Eof, has no Eof before that and no two adjacent number literals (obligation of the tokenizer units)',
+    'T2: derived Clone/PartialEq of Token, NativeFunction, Node are structural; derived PartialOrd of OperatorCategory follows declaration order (the latter also proved by Kani on the real derive)',
+    'T6 (fn-pointer parameter specialised per call site), T7 (format! dropped), T5 extraction rewrites',
+    'arm splitting: match arms are verified in separate runs, every other arm pruned with assume(false); the runs together cover all arms',
+]
 
 PLAN = {
     'C06': dict(
@@ -20,6 +28,9 @@ PLAN = {
         ],
         unclaimed=[],
     ),
+    'C03': dict(verus=['i64-parser'], level='proof', assumptions=PARSER_ASSUME, unclaimed=[]),
+    'C04': dict(verus=['i64-parser'], level='proof', assumptions=PARSER_ASSUME, unclaimed=[]),
+    'C12': dict(verus=['i64-parser'], level='proof', assumptions=PARSER_ASSUME, unclaimed=[]),
 }
 
 
